@@ -32,6 +32,40 @@ theorem feedAll_inv {C : Type} (f : C → Notif α → C × List (Notif α)) (P 
   | nil => simpa
   | cons x xs ih => rw [feedAll_cons]; exact ih _ (h _ _ hc)
 
+/-! ### unfolding one level -/
+
+theorem push_cons_open (hot : Bool) (a : AnyM α) (rest : List (AnyM α)) (c : Cfg (a :: rest)) (n : Notif α)
+    (h : c.1.gate = true) :
+    push hot (a :: rest) c n =
+      (({ c.1 with st := (a.m.step c.1.st n).1,
+                   gate := !n.isTerminal && !(hot && !headOpen rest (feedAll (push hot rest) c.2 (a.m.step c.1.st n).2).1),
+                   seen := c.1.seen ++ [n] },
+        (feedAll (push hot rest) c.2 (a.m.step c.1.st n).2).1),
+       (feedAll (push hot rest) c.2 (a.m.step c.1.st n).2).2) := by
+  simp only [push, h, if_true]
+  rfl
+
+theorem push_sink_open (hot : Bool) (c : Cfg ([] : List (AnyM α))) (n : Notif α) (h : SinkSt.gate c = true) :
+    push hot [] c n = (({ gate := !n.isTerminal } : SinkSt), [n]) := by
+  simp only [push, h, if_true]
+  rfl
+
+theorem subscribePhase_cons_reached (sub : Ctx) (a : AnyM α) (rest : List (AnyM α)) (c : Cfg (a :: rest))
+    (h : (subscribePhase sub rest c.2).reached = true) :
+    subscribePhase sub (a :: rest) c =
+      { cfg := ({ c.1 with st := (a.m.onSubscribe c.1.st sub).1, subd := c.1.subd + 1 },
+                (feedAll (push false rest) (subscribePhase sub rest c.2).cfg (a.m.onSubscribe c.1.st sub).2).1),
+        out := (subscribePhase sub rest c.2).out ++
+               (feedAll (push false rest) (subscribePhase sub rest c.2).cfg (a.m.onSubscribe c.1.st sub).2).2,
+        reached := a.m.subscribes } := by
+  simp [subscribePhase, h]
+
+theorem subscribePhase_cons_unreached (sub : Ctx) (a : AnyM α) (rest : List (AnyM α)) (c : Cfg (a :: rest))
+    (h : (subscribePhase sub rest c.2).reached = false) :
+    subscribePhase sub (a :: rest) c =
+      { cfg := (c.1, (subscribePhase sub rest c.2).cfg), out := (subscribePhase sub rest c.2).out, reached := false } := by
+  simp [subscribePhase, h]
+
 /-! ### head gates -/
 
 theorem push_closed (hot : Bool) (ms : List (AnyM α)) (c : Cfg ms) (n : Notif α)
@@ -141,18 +175,19 @@ theorem run_hot_some (sub : Ctx) (ms : List (AnyM α)) (raw : List (Notif α)) (
 
 /-! ### local invariants -/
 
-/-- a per-stage predicate over (machine state, notifications accepted so far) -/
-def AllInv (I : (a : AnyM α) → a.σ → List (Notif α) → Prop) : (ms : List (AnyM α)) → Cfg ms → Prop
+/-- a per-stage predicate over (machine state, notifications accepted so far, runs of the
+    subscribe function so far) -/
+def AllInv (I : (a : AnyM α) → a.σ → List (Notif α) → Nat → Prop) : (ms : List (AnyM α)) → Cfg ms → Prop
   | [], _ => True
-  | a :: rest, c => I a c.1.st c.1.seen ∧ AllInv I rest c.2
+  | a :: rest, c => I a c.1.st c.1.seen c.1.subd ∧ AllInv I rest c.2
 
 /-- … that holds initially and is kept by the stage's own reactions -/
-structure LocalInv (I : (a : AnyM α) → a.σ → List (Notif α) → Prop) : Prop where
-  init : ∀ a, I a a.m.init []
-  sub : ∀ a s l c, I a s l → I a (a.m.onSubscribe s c).1 l
-  step : ∀ a s l n, I a s l → I a (a.m.step s n).1 (l ++ [n])
+structure LocalInv (I : (a : AnyM α) → a.σ → List (Notif α) → Nat → Prop) : Prop where
+  init : ∀ a, I a a.m.init [] 0
+  sub : ∀ a s l k c, I a s l k → I a (a.m.onSubscribe s c).1 l (k + 1)
+  step : ∀ a s l k n, I a s l k → I a (a.m.step s n).1 (l ++ [n]) k
 
-variable {I : (a : AnyM α) → a.σ → List (Notif α) → Prop}
+variable {I : (a : AnyM α) → a.σ → List (Notif α) → Nat → Prop}
 
 theorem allInv_init (h : LocalInv I) (ms : List (AnyM α)) : AllInv I ms (initCfg ms) := by
   induction ms with
@@ -166,7 +201,7 @@ theorem allInv_push (h : LocalInv I) (hot : Bool) (ms : List (AnyM α)) (c : Cfg
   | cons a rest ih =>
     simp only [push]
     split
-    · refine ⟨h.step a _ _ n hc.1, ?_⟩
+    · refine ⟨h.step a _ _ _ n hc.1, ?_⟩
       exact feedAll_inv _ (AllInv I rest) (fun c' n' hc' => ih c' n' hc') _ _ hc.2
     · exact hc
 
@@ -191,7 +226,7 @@ theorem allInv_subscribePhase (h : LocalInv I) (sub : Ctx) (ms : List (AnyM α))
   | cons a rest ih =>
     simp only [subscribePhase]
     split
-    · exact ⟨h.sub a _ _ sub hc.1, allInv_feedAll h false rest _ _ (ih c.2 hc.2)⟩
+    · exact ⟨h.sub a _ _ _ sub hc.1, allInv_feedAll h false rest _ _ (ih c.2 hc.2)⟩
     · exact ⟨hc.1, ih c.2 hc.2⟩
 
 /-- the local-invariant principle: every configuration at the end of a run -/
